@@ -42,6 +42,10 @@ func c04Check(c c04Case) string {
 			cs.Prog = cs.Prog[:len(cs.Prog)-c.Again]
 			cs.PreOps = []string{c.Format, "output"}
 		}
+		if c.Again > 0 {
+			cs.PreOps = append(cs.PreOps, "dryrun")
+			cs.ColorPre = len(c.Forest[0].Name)%2 == 0 // half of them as on a colour terminal
+		}
 	case "noiter":
 		cs.Opts.NoIter = true
 		fallthrough
@@ -415,6 +419,7 @@ type c04Wide struct {
 	Grand  int    `json:"grand"` // every Grand-th child has W2 children of its own (0: none)
 	W2     int    `json:"w2"`
 	Tail   int    `json:"tail"` // the last Tail children have one child each
+	Around bool   `json:"around,omitempty"` // a small root before and after the wide one (JSON / YAML, From-Markdown)
 	Format string `json:"format"`
 	Entry  string `json:"entry"`
 }
@@ -435,11 +440,15 @@ func c04WideCheck(c c04Wide) string {
 		}
 		r.Kids = append(r.Kids, k)
 	}
-	msg := c04Check(c04Case{Forest: model.Forest{r}, Format: c.Format, Entry: c.Entry})
+	f := model.Forest{r}
+	if c.Around && c.Format != "toml" && c.Entry != "root" {
+		f = model.Forest{{Name: "small", Kids: []*model.T{{Name: "s"}}}, r, {Name: "last"}}
+	}
+	msg := c04Check(c04Case{Forest: f, Format: c.Format, Entry: c.Entry})
 	if msg == "" {
 		return ""
 	}
-	return fmt.Sprintf("a root with %d children (every %d-th with %d children of its own, the last %d with one child each), format=%s entry=%s:\n%s", c.W, c.Grand, c.W2, c.Tail, c.Format, c.Entry, truncate(msg, 1500))
+	return fmt.Sprintf("a root with %d children (every %d-th with %d children of its own, the last %d with one child each; small roots around it: %v), format=%s entry=%s:\n%s", c.W, c.Grand, c.W2, c.Tail, c.Around, c.Format, c.Entry, truncate(msg, 1500))
 }
 
 func TestC04Wide(t *testing.T) {
@@ -461,7 +470,7 @@ func TestC04Wide(t *testing.T) {
 					if !thorough() && n%3 != 0 {
 						continue
 					}
-					c := c04Wide{W: w, Grand: g[0], W2: g[1], Tail: g[2], Format: format, Entry: entry}
+					c := c04Wide{W: w, Grand: g[0], W2: g[1], Tail: g[2], Format: format, Entry: entry, Around: n%2 == 0}
 					col.eval(true, hash64(fmt.Sprint(c)), "format:"+format, "entry:"+entry, fmt.Sprintf("w>=1024:%v", w >= 1024))
 					col.sample(func() any { return c })
 					if msg := c04WideCheck(c); msg != "" {
